@@ -1,7 +1,7 @@
 """C11 — zix_path_lexically_normal versus the C++17 normal form (PathNorm*).
 
 case line  = the path string in hex ("-" = empty string)
-impl line  = root=<b> elems=<hex,..> nf=<b> || t=<hex of result> alloc=<bytes requested>
+impl line  = root=<b> elems=<hex,..> nf=<b> || t=<hex of result>
              (observable part computed from the C driver's result text by the extracted Coq spec
               functions has_root / elems / is_normal_form; structural part printed by the C driver)
 M line     = the same, from the faithful Coq model;   S line = root/elems of std_normal, nf=true
@@ -145,7 +145,7 @@ def run_impl(ctx, cases):
     crashes = 0
     while rest:
         rc, out, err = ctx.run_lines([ctx.path("drv_c11")], rest)
-        out = out[:len(rest)]
+        out = [l for l in out[:len(rest)] if l]
         raw += out
         if len(out) >= len(rest):
             break
